@@ -67,6 +67,8 @@ def check(ctx):
     kinds = {"guarded": 0, "documented": 0, "invariant": 0, "trivial-assert": 0, "benign-forwarder": 0}
     pub_reach_cache = {}
     for f in prog.real_fns():
+        if f.key in prog.fully_inlined:
+            continue   # private helper whose every use is analysed in the context of its callers (lib/inline.py)
         vl = None
         pv = None
         for bi, b in enumerate(f.blocks):
@@ -165,6 +167,7 @@ def check(ctx):
                        name, f.key, " (reachable from a decode entry point)" if f.key in dreach else ""),
                    where=f.where(bi))
     ctx.count("panic_capable_sites", n_sites)
+    ctx.count("helpers_analysed_in_caller_context", len(prog.fully_inlined))
     for k, v in kinds.items():
         ctx.count("ledger_" + k, v)
     ctx.floor("R-2", "panic-capable sites enumerated", n_sites, 150)
@@ -186,7 +189,7 @@ def check(ctx):
     nloops = 0
     for k in sorted(dreach):
         f = prog.fns[k]
-        if not f.blocks:
+        if not f.blocks or k in prog.fully_inlined:
             continue
         for header, body in f.cfg.loops():
             nloops += 1
